@@ -137,3 +137,32 @@ def handler_names(h):
 
 def catches_everything(h):
     return any(n in ('<bare>', 'Exception', 'BaseException') for n in handler_names(h))
+
+
+def is_noise(stmt):
+    """Statements without bearing on any property: docstrings, imports, pass, logging / print calls."""
+    if isinstance(stmt, (ast.Import, ast.ImportFrom, ast.Pass)):
+        return True
+    if isinstance(stmt, ast.Expr):
+        v = stmt.value
+        if isinstance(v, ast.Constant):
+            return True
+        if isinstance(v, ast.Call):
+            d = dotted(v.func) or ''
+            if d.startswith(('logger.', 'logging.', '_lg.', 'log.', 'warnings.')) or d == 'print' or '.getLogger(' in norm(v.func):
+                return True
+    return False
+
+
+def effective(stmts):
+    """Statement list without noise (see is_noise)."""
+    return [s for s in stmts if not is_noise(s)]
+
+
+def aug_form(stmt):
+    """(target text, operator class, value node) for `x op= v` and for `x = x op v`; None otherwise."""
+    if isinstance(stmt, ast.AugAssign):
+        return norm(stmt.target), type(stmt.op), stmt.value
+    if isinstance(stmt, ast.Assign) and len(stmt.targets) == 1 and isinstance(stmt.value, ast.BinOp) and norm(stmt.value.left) == norm(stmt.targets[0]):
+        return norm(stmt.targets[0]), type(stmt.value.op), stmt.value.right
+    return None
